@@ -13,20 +13,39 @@ def stJson (st : St) : Json :=
     ("warns", Json.arr (st.warns.map Json.str).toArray),
     ("tags", Json.arr (st.tags.map Json.str).toArray)]
 
+/-- the assignment number `m` of `n` variables: variable `i` gets bit `n-1-i` of `m`
+(the order of `itertools.product((0,1), repeat=n)`); every other label gets 0 -/
+def assignOfNat (n m : Nat) : Var → Rat := fun i =>
+  if i < n then (if (m >>> (n - 1 - i)) % 2 = 1 then 1 else 0) else 0
+
 /-- op "cons": a sequence of comparison constraints added to one fresh PCBO.
-each element: {rel, P (terms of PUBO(P) in insertion order), lam, lt, lo, hi, sup} -/
+each element: {rel, P, lam, lt, lo, hi, sup, raw}.  `P` is the terms of `PUBO(P)` in insertion order, or
+(with `raw: true`) the user's raw items, to which the model applies `PUBO(...)` itself.
+Optional top-level fields: `trace: true` adds the state after every step (`steps`);
+`n: k` adds `valid`, the table of `is_solution_valid` over all assignments of the labels `0..k-1`. -/
 def handleCons (j : Json) : Except String Json := do
   let seq ← j.getObjVal? "seq" >>= Json.getArr?
-  let st ← seq.toList.foldlM (fun (st : St) c => do
+  let (st, steps) ← seq.toList.foldlM (fun (acc : St × List Json) c => do
+    let st := acc.1
     let rel ← c.getObjVal? "rel" >>= Json.getStr? >>= relOfString
-    let P ← c.getObjVal? "P" >>= polyOfJson
+    let P0 ← c.getObjVal? "P" >>= polyOfJson
+    let raw := (c.getObjVal? "raw" >>= Json.getBool?).toOption.getD false
+    let P := if raw then constructB P0 else P0
     let lam ← c.getObjVal? "lam" >>= ratOfJson
     let lt ← c.getObjVal? "lt" >>= Json.getBool?
     let lo ← c.getObjVal? "lo" >>= optRat
     let hi ← c.getObjVal? "hi" >>= optRat
     let sup := (c.getObjVal? "sup" >>= Json.getBool?).toOption.getD false
-    pure (addConstraint rel st P lam lt (lo, hi) sup)) ({} : St)
-  pure (stJson st)
+    let st' := addConstraint rel st P lam lt (lo, hi) sup
+    pure (st', acc.2 ++ [stJson st'])) (({} : St), [])
+  let trace := (j.getObjVal? "trace" >>= Json.getBool?).toOption.getD false
+  let out := stJson st
+  let out := if trace then out.setObjVal! "steps" (Json.arr steps.toArray) else out
+  match (j.getObjVal? "n" >>= Json.getNat?).toOption with
+  | some n =>
+    let tbl := (List.range (2 ^ n)).map (fun m => Json.bool (isValid st (assignOfNat n m)))
+    pure (out.setObjVal! "valid" (Json.arr tbl.toArray))
+  | none => pure out
 
 def handlersC02 : List (String × (Json → Except String Json)) := [("cons", handleCons)]
 
